@@ -40,8 +40,12 @@ def bracket_obligation(ctx, max_size):
 
 def run(pid, tier, seed, level, unicode_which=(), brackets=False, deductive=None):
     ctx = Context(pid, tier, seed)
-    if deductive:
-        ctx.run_deductive(*deductive)
+    import contracts.rexpy
+    from pyvc.contracts import REGISTRY
+    idents = [i for i, c in REGISTRY.items() if not c.assumed and pid in c.props]
+    if idents:
+        ctx.run_deductive(['contracts.rexpy'], idents)
+        ctx.trusted.append('z3; pyvc encoding of the Python subset (structured text for string building)')
     if unicode_which:
         unicode_obligations(ctx, unicode_which)
     if brackets:
